@@ -17,7 +17,8 @@ THEOREMS = ["FP.Props.C13.solved_iff_optimal", "FP.Props.C13.getter_only_when_op
             "FP.Props.C13.no_answer_after_inconclusive", "FP.Props.C13.search_trace",
             "FP.Props.C13.timed_sound", "FP.Props.C13.timed_complete",
             "FP.Props.C13.timed_no_answer_after_inconclusive", "FP.Props.C13.skip_violates", "FP.Props.C13.given_sound", "FP.Props.C13.given_no_answer_after_inconclusive",
-            "FP.Props.C13.npo_returns_only_optimal"]
+            "FP.Props.C13.npo_returns_only_optimal", "FP.Props.C13.flag_reflects_last_run",
+            "FP.Props.C13.resolve_getter_only_when_last_optimal", "FP.Props.C13.never_solved_before_first_run"]
 IMPORTS = ["FP.Props.C13"]
 RULE = ("for each generated input the fault-free run is recorded, then every solver-invocation position (and, in the "
         "thorough tier, pairs) is forced to each inconclusive status; a case = (class, input, fault plan); non-trivial "
